@@ -173,6 +173,66 @@ CHECKS["C03"] = _bounded(
   "reproduce the post-bundle snapshot of every table.",
   "bounded; known findings: decoded error cells read as NoneType (#10), summary row ids", "5/C03")
 
+CHECKS["C10"] = _bounded(
+  "Deductive lemma on ReferenceListColumn._raw_get_without (filter keeps the other ids in order, "
+  "None when empty, non-lists untouched) + run-time 2-state contract evaluated per user action "
+  "and after end-of-bundle auto-removals: no data Ref cell equals and no RefList cell contains a "
+  "row removed from its target table (user and metadata tables).",
+  "bounded for the engine-level clause; known finding: ReplaceTableData leaves dangling references",
+  "5/C10")
+CHECKS["C10"]["engine"] = "pysym+rtc"
+CHECKS["C10"]["technique"] = "deductive lemma (own AST->SMT VC generator) + bounded run-time contract on the real engine"
+CHECKS["C11"] = _bounded(
+  "Run-time invariant after every bundle: for every (col, reverseCol) pair a refers to b iff b "
+  "refers to a; changes giving a single-valued side two targets are rejected without trace; "
+  "exhaustive function-level contract on reverse_references.get_reverse_adjustments.",
+  "bounded; ReplaceTableData excluded (recorded under C10); known finding: duplicate row ids in "
+  "a bulk update", "5/C11")
+CHECKS["C12"] = _bounded(
+  "Run-time invariant after every bundle against a naive group-by written from the statement "
+  "(list-valued group-by cells, empty lists, non-list values): one row per key, no duplicate "
+  "keys, exact sorted groups, empty groups gone.",
+  "bounded; narrowed: no direct actions on summary tables, no summaries of summaries, no error "
+  "cells in group-by columns (stated in the evidence)", "5/C12")
+CHECKS["C13"] = _bounded(
+  "Deductive lemmas (table.make_sort_spec against its specification; SortKey.__init__/__lt__ = "
+  "signed lexicographic order then row id, for 0..3 columns) + run-time contract at EVERY "
+  "Table.lookup_records / lookup_one_record call of every explored history: result == naive "
+  "filter + documented order; TwoWayMap invariants after every mutation.",
+  "bounded for the lookup clause; known findings: stale indexes (erroring key cell, removed key "
+  "column, ReplaceTableData, replaced sort column)", "5/C13")
+CHECKS["C13"]["engine"] = "pysym+rtc"
+CHECKS["C13"]["technique"] = "deductive lemmas (own AST->SMT VC generator) + bounded run-time contract at every lookup call"
+CHECKS["C15"] = _bounded(
+  "Run-time contract against a MUST / MUST-NOT / MAY recalculation model written from the "
+  "statement, observed through counter-style trigger formulas on 7 trigger columns (DEFAULT with "
+  "various recalcDeps, NEVER, MANUAL_UPDATES).",
+  "bounded; single-action bundles; known findings on explicit values", "5/C15")
+CHECKS["C16"] = _bounded(
+  "Run-time 2-state contract on rename bundles (RenameColumn, RenameTable, colId/tableId "
+  "metadata updates, label changes): every formula value unchanged, and a tokenize-based diff "
+  "shows only name tokens changed in formula texts.",
+  "bounded; known findings (summary group column, comprehension over a RefList column, names "
+  "like builtins / lookup keywords)", "5/C16")
+CHECKS["C23"] = _bounded(
+  "Run-time contract on ModifyColumn(type) and the metadata path: new cell == new type's "
+  "convert(old stored value) for all ordered pairs of 11 types x 43-value pool; frame: nothing "
+  "else changes except dependent formulas and the reverse column of a two-way reference.",
+  "bounded; known finding: RefList re-parses alt-text", "5/C23")
+CHECKS["C28"] = _bounded(
+  "Run-time contract against a reference implementation written from the docstring of "
+  "BulkAddOrUpdateRecord / AddOrUpdateRecord: exhaustive over tables <= 3 rows, 41 argument sets, "
+  "all 40 option combinations; invalid arguments rejected without changes.",
+  "bounded", "5/C28")
+CHECKS["C39"] = _bounded(
+  "Deductive: ChoiceColumn/ChoiceListColumn._rename_cell_choice (simultaneous, element-wise) and "
+  "ChoiceColumn.rename_choices (exactly the matching rows, ascending, aligned values) proved for "
+  "all inputs. Bounded: RenameChoices through the real engine, exhaustive 3528 cases incl. swaps, "
+  "removed rows and saved filters: cells and filters renamed, nothing else changes.",
+  "bounded for the bundle-level clauses", "5/C39")
+CHECKS["C39"]["engine"] = "pysym+rtc"
+CHECKS["C39"]["technique"] = "deductive verification of the cell helpers (own AST->SMT VC generator) + bounded run-time contract on RenameChoices"
+
 NOT_APPLICABLE = {
   "C30": "quantifies over interpreter configurations (PYTHONHASHSEED) and relates two separate "
          "processes; no pre/postcondition on a call inside one process can mention the hash seed "
